@@ -120,6 +120,17 @@ def spy_runs(M, rec, rng, g, n_nets):
                 if E.get_current_engine() is not spy:
                     rec.violation(f"{PROP}:stepping with an explicit engine changed the selection", ctx)
                     E.use(spy)
+                # a step that FAILS (a model parameter forgotten / a wrong-length state) must leave it too
+                bad_kw = {k_: v_ for k_, v_ in kw.items() if k_ != rng.choice(("tau", "kappa", "T"))}
+                try:
+                    built.net.step(engine=mk_engine(M, exp), **bad_kw)
+                    rec.count("failing_steps_that_did_not_fail")
+                except Exception:
+                    rec.count("failing_steps")
+                if E.get_current_engine() is not spy or sym_metanet.engine is not spy:
+                    rec.violation(f"{PROP}:a step with an explicit engine that raised left another engine selected",
+                                  dict(ctx, now=repr(E.get_current_engine())))
+                    E.use(spy)
                 # every produced value has the explicit engine's type
                 for eid, L in lay.items():
                     el = built.el(eid)
